@@ -41,15 +41,31 @@ def main():
         print("unknown property", pid)
         return 2
     modname, extra = TABLE[pid]
-    mod = importlib.import_module("vf." + modname)
     before = common.git_status()
     try:
+        mod = importlib.import_module("vf." + modname)
         if a.replay:
             from . import replay
 
             rc = replay.main(pid, a.replay, modname, extra)
         else:
             rc = mod.main(*extra, a.tier)
+    except Exception as e:  # a check must never die silently
+        import traceback
+
+        tb = traceback.extract_tb(e.__traceback__)
+        in_repo = [f for f in tb if f.filename.startswith(common.REPO + os.sep)]
+        text = "".join(traceback.format_exception(type(e), e, e.__traceback__))[-1500:]
+        if in_repo:
+            # the code under test raised where the harness expects it to work (e.g. at import or at
+            # converter creation): that is an observation about the tree, reported with a witness
+            rep = common.Report(pid, a.tier)
+            rep.fail("code under test raises during the check|%s at %s:%s" % (type(e).__name__, os.path.relpath(in_repo[-1].filename, common.REPO), in_repo[-1].name), {"traceback": text})
+            rc = rep.finish({"evaluations": 1, "distinct_nontrivial": 2, "rule": "aborted: the code under test raised outside a monitored call", "samples": [{"error": repr(e)[:300]}]})
+        else:
+            print("HARNESS-ERROR property=%s %s" % (pid, text))
+            print("INCONCLUSIVE property=%s reason=harness error %s" % (pid, type(e).__name__))
+            rc = 2
     finally:
         after = common.git_status()
         if after != before:
